@@ -14,6 +14,8 @@ import QV.Driver.Cli
 import QV.Driver.Ir
 import QV.Driver.Passes
 import QV.Driver.C03
+import QV.Driver.Observe
+import QV.Driver.CxxEmit
 
 open QV
 
@@ -56,6 +58,11 @@ def dispatch (req : Sexp) : Sexp :=
   | .list (.atom "build" :: args) => Driver.Ir.handleBuild args
   | .list (.atom "cfgcheck" :: args) => Driver.Ir.handleCfgCheck args
   | .list (.atom "passes" :: args) => Driver.Passes.handle args
+  | .list (.atom "c16-inv" :: args) => Driver.CxxEmit.handleInventory args
+  | .list (.atom "c16-lit" :: args) => Driver.CxxEmit.handleLit args
+  | .list (.atom "spec-cxxlit" :: args) => Driver.CxxEmit.handleSpecCxxLit args
+  | .list (.atom "coveredcheck" :: args) => Driver.Observe.handleCoveredCheck args
+  | .list (.atom "c02-history" :: args) => Driver.Observe.handleHistory args
   | .list (.atom "literal" :: args) => Driver.C03.handleLiteral args
   | .list (.atom "spec-mv" :: args) => Driver.C03.handleSpecMv args
   | .list (.atom "c03-judge" :: args) => Driver.C03.handleJudge args
